@@ -275,6 +275,51 @@ where
             }
             left = Some(it);
         }
+        "find" => {
+            let mut idx = 0usize;
+            match call(ctx, || {
+                it.find(|_x| {
+                    let _s = ledger::Suspend::new();
+                    ledger::maybe_panic('g', 0, 0);
+                    let hit = idx == j;
+                    idx += 1;
+                    hit
+                })
+            }) {
+                Some(Some(x)) => {
+                    some = "item";
+                    r.push(x.json(ctx));
+                    x.check_inside(ctx);
+                    x.keep(ctx);
+                }
+                Some(None) => some = "none",
+                None => some = "panic",
+            }
+            left = Some(it);
+        }
+        "any" | "all" | "position" => {
+            // short-circuiting consumers: the predicate answers at index j; items handed to it are
+            // dropped there (for consuming cursors that destroys them)
+            let mut idx = 0usize;
+            let mut pred = |_x: I::Item| {
+                let _s = ledger::Suspend::new();
+                ledger::maybe_panic('g', 0, 0);
+                let hit = idx == j;
+                idx += 1;
+                hit
+            };
+            let got: Option<bool> = match fin {
+                "any" => call(ctx, || it.any(&mut pred)),
+                "all" => call(ctx, || !it.all(|x| !pred(x))),
+                _ => call(ctx, || it.position(&mut pred).is_some()),
+            };
+            some = match got {
+                Some(true) => "hit",
+                Some(false) => "miss",
+                None => "panic",
+            };
+            left = Some(it);
+        }
         "last" => match call(ctx, move || it.last()) {
             Some(Some(x)) => {
                 some = "item";
@@ -659,6 +704,7 @@ pub fn exec_map<const N: usize>(cage: &mut Cage<Map<Key, Val, N>>, op: &Value, c
                 3 => disjoint::<N, 3>(cage, &ks, w, unchecked, ctx),
                 4 => disjoint::<N, 4>(cage, &ks, w, unchecked, ctx),
                 5 => disjoint::<N, 5>(cage, &ks, w, unchecked, ctx),
+                200 => disjoint::<N, 200>(cage, &ks, w, unchecked, ctx),
                 _ => panic!("unsupported J"),
             }
         }
@@ -1013,6 +1059,8 @@ fn exec_entry<const N: usize>(cage: &mut Cage<Map<Key, Val, N>>, op: &Value, ctx
     let clsk = |occ: bool| if occ { "occk" } else { "vack" };
     let calls = Cell::new(0i64);
     let seen: Cell<Option<KO>> = Cell::new(None);
+    let span_ = ctx.span;
+    let outside = Cell::new(false);
     let closure_cb = || {
         let _s = ledger::Suspend::new();
         ledger::maybe_panic('f', 0, 0);
@@ -1054,6 +1102,10 @@ fn exec_entry<const N: usize>(cage: &mut Cage<Map<Key, Val, N>>, op: &Value, ctx
                         .and_modify(|x| {
                             closure_cb();
                             x.check("and_modify value");
+                            let a = x as *const Val as usize;
+                            if a < span_.0 || a + std::mem::size_of::<Val>() > span_.1 {
+                                outside.set(true);
+                            }
                             if w != NO_WRITE {
                                 x.content = w as u8;
                             }
@@ -1062,6 +1114,9 @@ fn exec_entry<const N: usize>(cage: &mut Cage<Map<Key, Val, N>>, op: &Value, ctx
                 };
                 (occ, vo(r))
             });
+            if outside.get() {
+                ctx.note("C06", "and_modify handed its closure a reference that points outside the container value".into());
+            }
             match r {
                 None if matches!(m, "or_insert_with" | "or_insert_with_key") && !ctx.injected => json!(["panic", calls.get()]),
                 None => json!(["panic"]),
